@@ -406,9 +406,11 @@ def field_expression_cases(want):
                 if cls is T.Group:
                     ok = ok and r.expr is x.expr
                 elif cls is T.Boost:
-                    ok = ok and r is x and isinstance(r.expr, model.AbsNode) and r.expr is not kids[0]
+                    ok = ok and r is x and isinstance(r.expr, model.AbsNode) and r.expr.vf_name == kids[0].vf_name + "_fe"
                 else:
-                    ok = ok and r is x
+                    # anything else - prefixes included - is returned as it is: parentheses below it do not directly follow `field:`
+                    now = list(r.children)
+                    ok = ok and r is x and len(now) == len(kids) and all(a is b for a, b in zip(now, kids))
                 obls.append(("C03-S/%s/group-becomes-field-group-boost-recurses-others-unchanged" % key, ok))
             if "C04" in want:
                 obls.append(("C04-X/%s/returns-item" % key, isinstance(r, T.Item)))
